@@ -1,11 +1,216 @@
 import NixModel.Pure.DataView
+import NixModel.Lemmas.C06Slice
+import NixModel.Lemmas.C06View
 
+/-!
+# C06 — index expressions on arrays and views mean what they mean in NumPy
+
+Property theorems only; helper lemmas live in `Lemmas/C06Slice.lean` and `Lemmas/C06View.lean`.
+The statements are about the model `Pure/DataView.lean` (+ `Py/Slice.lean`, `Pure/NdIndex.lean`)
+of the code as repaired by the three `fix:` commits for C06 (negative window start/extent ⇒
+invalid view; surplus indices ⇒ `IndexError`; `view[0] = x` addresses element 0).
+
+Vocabulary (definitions in `Lemmas/C06View.lean`):
+* `WindowsIn ws shape` — as many windows as dimensions and `0 ≤ start ≤ stop ≤ extent` on each;
+* `ViewOK v`          — `v.valid` and `WindowsIn v.window v.parent`;
+* `PosSteps ix`       — every slice in the tuple has step `None` or ≥ 1 (the property's tuples);
+* `npSelect shape ix` — NumPy basic indexing (`Pure/NdIndex.lean`), the specification;
+* `shiftSel offs sel` — the selection translated by the window starts;
+* `v.extents`, `v.offsets` — the view's shape and window starts.
+All theorems hold for every rank, every extent and every tuple length (induction over the tuple).
+-/
 namespace Nix.C06
 open Nix.Py Nix.NdIndex Nix.DataView
 
-/-- placeholder while the harness is brought up -/
-theorem C06_invalid_read (shape : List Nat) (ix : Option (List Ix)) :
-    viewRead (mkView shape none) ix = .ok .empty := by
-  simp [viewRead, mkView]
+/-- `slice.indices(len)` for a positive step yields bounds inside `[0, len]`, is idempotent,
+and everything the slice selects is an index of the sequence -/
+theorem C06_slice_indices (s : PySlice) (len : Nat) (h : s.PosStep) :
+    ∃ a b k, s.indices len = .ok (a, b, k) ∧ k ≥ 1 ∧ 0 ≤ a ∧ a ≤ len ∧ 0 ≤ b ∧ b ≤ len ∧
+      (PySlice.mk (some a) (some b) (some k)).indices len = .ok (a, b, k) ∧
+      ∀ x ∈ pyRange a b k, 0 ≤ x ∧ x < (len : Int) := by
+  obtain ⟨a, b, k, hi, hk, ha0, ha, hb0, hb⟩ := indices_pos s len h
+  refine ⟨a, b, k, hi, hk, ha0, ha, hb0, hb, indices_idem s len h a b k hi, ?_⟩
+  intro x hx
+  have := mem_pyRange_pos a b k hk x hx
+  omega
+
+/-- **Window validity (full strength).** A view requested with integer windows is valid exactly
+when there are as many windows as dimensions and every window satisfies
+`0 ≤ start ≤ stop ≤ extent`; then the stored window is the requested one.  A request that is
+`None` or contains a `None` entry is invalid.  An invalid view reads empty for every index
+expression and refuses every assignment. -/
+theorem C06_window (shape : List Nat) (ws : List Win) :
+    ((mkView shape (some (ws.map some))).valid = true ↔ WindowsIn ws shape) ∧
+    (WindowsIn ws shape → mkView shape (some (ws.map some)) = ⟨shape, true, ws⟩) ∧
+    (mkView shape none).valid = false ∧
+    (∀ sl, none ∈ sl → (mkView shape (some sl)).valid = false) ∧
+    (∀ v : View, v.valid = false → ∀ ix, viewRead v ix = .ok .empty ∧
+      viewWrite v ix = .error .invalidSlice) := by
+  refine ⟨mkView_valid_iff shape ws, mkView_ok shape ws, rfl, ?_, ?_⟩
+  · intro sl h
+    simp [mkView, allSome_none_mem sl h]
+  · intro v hv ix
+    simp [viewRead, viewWrite, hv]
+
+/-- `get_slice(positions, extents)` in index mode with matching ranks is `DataView` on the
+windows `[p, p + e)`; hence valid iff `0 ≤ p`, `0 ≤ e`, `p + e ≤ extent` on every axis -/
+theorem C06_get_slice (shape : List Nat) (pos ext : List Int) (hp : pos.length = shape.length)
+    (he : ext.length = shape.length) :
+    getSlice shape pos (some ext) = .ok (mkView shape (some ((zipWindows pos ext).map some))) ∧
+    ((mkView shape (some ((zipWindows pos ext).map some))).valid = true ↔
+      WindowsIn (zipWindows pos ext) shape) := by
+  refine ⟨?_, mkView_valid_iff shape _⟩
+  unfold getSlice
+  simp [hp, he]
+
+/-- a valid view read without an index (`view._read_data()`, `np.array(view)`) is the window of
+the parent, `parent[start:stop]` on every axis — which is also what NumPy selects -/
+theorem C06_window_read (v : View) (hv : ViewOK v) :
+    viewRead v none = .ok (.sel (windowSel v.window)) ∧
+    npSelect v.parent (windowIx v.window) = .ok (windowSel v.window) ∧
+    viewWrite v none = .ok (windowSel v.window) := by
+  obtain ⟨hval, hw⟩ := hv
+  have hs := window_scan v.parent.length false (windowIx v.window).length v.window v.parent hw
+  have hl := windowsIn_length v.window v.parent hw
+  have hne := windowIx_noEllipsis v.window
+  have hlen : (windowIx v.window).length = v.parent.length := by simp [windowIx, hl]
+  refine ⟨?_, ?_, ?_⟩
+  · simp [viewRead, hval, daRead, h5Select, hs.1]
+  · have := expandIx_noEllipsis (windowIx v.window) hne
+    rw [hlen] at this
+    simp [npSelect, this, hs.2]
+  · simp [viewWrite, hval, daWrite, h5Select, hs.1]
+
+/-- **Transformation (core theorem).** For a valid view and any index tuple of integers,
+positive-step slices (any start/stop, `None` included, beyond the extent on both sides) and
+ellipses: if NumPy, applied to an array of the view's shape, selects `sel`, then the
+transformed tuple exists and selects in the parent — by NumPy's rules and by h5py's — exactly
+`sel` shifted by the window starts. -/
+theorem C06_transform (v : View) (hv : ViewOK v) (ix : List Ix) (hp : PosSteps ix)
+    (sel : List AxisSel) (h : npSelect v.extents ix = .ok sel) :
+    ∃ tix, transform v ix = .ok tix ∧
+      npSelect v.parent tix = .ok (shiftSel v.offsets sel) ∧
+      h5Select v.parent tix = .ok (shiftSel v.offsets sel) := by
+  obtain ⟨_, hw⟩ := hv
+  unfold npSelect at h
+  have hrank : v.extents.length = v.window.length := by simp [View.extents]
+  rw [hrank] at h
+  split at h
+  · cases h
+  · rename_i full hfull
+    obtain ⟨hl, hne, hps⟩ := expandIx_ok _ _ _ hfull
+    have hwl := windowsIn_length v.window v.parent hw
+    obtain ⟨t1, _⟩ := tuple_transform v.parent.length false v.parent.length v.window v.parent hw full
+      hl hne (hps hp)
+    obtain ⟨tix, ht, htl, htne, _, hsel, hscan⟩ := t1 sel h
+    refine ⟨tix, ?_, ?_, ?_⟩
+    · simp [transform, expandUser_eq, hfull, ht]
+    · have := expandIx_noEllipsis tix htne
+      rw [htl] at this
+      simp only [npSelect, this]
+      exact hsel
+    · simp only [h5Select, htl]
+      exact hscan
+
+/-- … and if NumPy refuses the tuple on the view's shape (integer outside the view, surplus
+indices, second ellipsis) the transformation refuses it with `OutOfBounds` or `IndexError`:
+nothing is read from or written to the parent. -/
+theorem C06_transform_refuses (v : View) (hv : ViewOK v) (ix : List Ix) (hp : PosSteps ix)
+    (e : Err) (h : npSelect v.extents ix = .error e) :
+    e = .indexError ∧
+      (transform v ix = .error .outOfBounds ∨ transform v ix = .error .indexError) := by
+  obtain ⟨_, hw⟩ := hv
+  unfold npSelect at h
+  have hrank : v.extents.length = v.window.length := by simp [View.extents]
+  rw [hrank] at h
+  split at h
+  · rename_i e1 he1
+    injection h with h
+    subst h
+    have := expandIx_err _ _ _ he1
+    subst this
+    exact ⟨rfl, Or.inr (by simp [transform, expandUser_eq, he1])⟩
+  · rename_i full hfull
+    obtain ⟨hl, hne, hps⟩ := expandIx_ok _ _ _ hfull
+    obtain ⟨_, t2⟩ := tuple_transform v.parent.length false v.parent.length v.window v.parent hw full
+      hl hne (hps hp)
+    obtain ⟨h1, h2⟩ := t2 e h
+    exact ⟨h1, Or.inl (by simp [transform, expandUser_eq, hfull, h2])⟩
+
+/-- **Reading through a view = NumPy on the window.** `view[ix]` returns the parent elements
+at `window start + (NumPy's selection on the view's shape)`, in NumPy's order and shape (a rank-0
+result as a one-element array), and is refused with `OutOfBounds`/`IndexError` iff NumPy refuses. -/
+theorem C06_view_read (v : View) (hv : ViewOK v) (ix : List Ix) (hp : PosSteps ix) :
+    match npSelect v.extents ix with
+    | .ok sel =>
+      viewRead v (some ix) = .ok (.sel (shiftSel v.offsets sel)) ∧
+      selIndices (shiftSel v.offsets sel) = (selIndices sel).map (addOffs v.offsets) ∧
+      resultShape (shiftSel v.offsets sel) = resultShape sel
+    | .error _ =>
+      viewRead v (some ix) = .error .outOfBounds ∨ viewRead v (some ix) = .error .indexError := by
+  split
+  · rename_i sel hsel
+    obtain ⟨tix, ht, _, hh⟩ := C06_transform v hv ix hp sel hsel
+    have hbox := shift_facts v hv ix hp sel hsel
+    refine ⟨?_, hbox.1, hbox.2.1⟩
+    simp [viewRead, hv.1, ht, daRead, hh]
+  · rename_i e he
+    obtain ⟨_, h⟩ := C06_transform_refuses v hv ix hp e he
+    rcases h with h | h
+    · exact Or.inl (by simp [viewRead, hv.1, h])
+    · exact Or.inr (by simp [viewRead, hv.1, h])
+
+/-- **Assignment through a view addresses exactly NumPy's elements.** `view[ix] = data`
+addresses, in the parent, exactly the elements `window start + m` for `m` in NumPy's selection
+on the view's shape (in that order, so the k-th datum lands on the k-th of them); every one of
+them lies inside the window; no other element of the parent is touched (frame property of
+`assign`, for any content and data); and when NumPy refuses the tuple nothing is written. -/
+theorem C06_write_exact (v : View) (hv : ViewOK v) (ix : List Ix) (hp : PosSteps ix) :
+    match npSelect v.extents ix with
+    | .ok sel =>
+      viewWrite v (some ix) = .ok (shiftSel v.offsets sel) ∧
+      selIndices (shiftSel v.offsets sel) = (selIndices sel).map (addOffs v.offsets) ∧
+      (∀ m ∈ selIndices sel, InBox m v.extents) ∧
+      (∀ {α : Type} (content : List Int → α) (data : List α) (m : List Int),
+        m ∉ selIndices (shiftSel v.offsets sel) →
+          assign content (selIndices (shiftSel v.offsets sel)) data m = content m)
+    | .error _ =>
+      viewWrite v (some ix) = .error .outOfBounds ∨ viewWrite v (some ix) = .error .indexError := by
+  split
+  · rename_i sel hsel
+    obtain ⟨tix, ht, _, hh⟩ := C06_transform v hv ix hp sel hsel
+    have hbox := shift_facts v hv ix hp sel hsel
+    refine ⟨?_, hbox.1, hbox.2.2, ?_⟩
+    · simp [viewWrite, hv.1, ht, daWrite, hh]
+    · intro α content data m hm
+      exact assign_frame content _ data m hm
+  · rename_i e he
+    obtain ⟨_, h⟩ := C06_transform_refuses v hv ix hp e he
+    rcases h with h | h
+    · exact Or.inl (by simp [viewWrite, hv.1, h])
+    · exact Or.inr (by simp [viewWrite, hv.1, h])
+
+/-! Non-vacuity: concrete views and tuples meeting the hypotheses, evaluated by the kernel. -/
+
+/-- `da.get_slice((1, 1), (2, 2))` on a 3×4 array -/
+def exView : View := mkView [3, 4] (some [some (1, 3), some (1, 3)])
+
+example : ViewOK exView := by
+  have : exView = ⟨[3, 4], true, [(1, 3), (1, 3)]⟩ := by decide
+  rw [this]
+  simp [ViewOK, WindowsIn, WinIn]
+example : PosSteps [Ix.ellipsis, Ix.int (-1)] := by
+  intro i hi; simp at hi; rcases hi with rfl | rfl <;> trivial
+/-- `view[..., -1]` reads parent offsets 6 and 10 (column 2 of rows 1–2) -/
+example : (match viewRead exView (some [Ix.ellipsis, Ix.int (-1)]) with
+    | .ok (.sel s) => (selIndices s).map (flatIndex [3, 4])
+    | _ => []) = [6, 10] := by decide
+example : viewRead exView (some [Ix.int 2]) = .error .outOfBounds := by rfl
+example : viewRead exView (some [Ix.int 0, Ix.int 0, Ix.int 0]) = .error .indexError := by rfl
+/-- D14 and the `view[0] = x` defect, as repaired -/
+example : (mkView [10] (some [some (-3, -1)])).valid = false := by decide
+example : (mkView [10] (some [some (-1, 1)])).valid = false := by decide
+example : (mkView [10] (some [some (2, -1)])).valid = false := by decide
+example : viewWrite (mkView [10] (some [some (2, 7)])) (some [Ix.int 0]) = .ok [.pick 2] := by rfl
 
 end Nix.C06
